@@ -74,7 +74,18 @@ static shadow *sh_get(uintptr_t a) {
     size_t h = (size_t)((a * 11400714819323198485ull) >> 48) & (SH - 1);
     for (;;) {
         if (sh[h].a == a) return &sh[h];
-        if (sh[h].a == 0) { sh[h].a = a; sh[h].wt = -1; sh[h].rmask = 0; if (sh_nused < SH) sh_used[sh_nused++] = h; return &sh[h]; }
+        if (sh[h].a == 0) {
+            if (sh_nused >= SH / 2) { fprintf(stderr, "vomp: shadow map full (%u words touched in one region)\n", sh_nused); abort(); }
+            sh[h].a = a; sh[h].wt = -1; sh[h].rmask = 0; sh_used[sh_nused++] = h; return &sh[h];
+        }
+        h = (h + 1) & (SH - 1);
+    }
+}
+static shadow *sh_find(uintptr_t a) {
+    size_t h = (size_t)((a * 11400714819323198485ull) >> 48) & (SH - 1);
+    for (;;) {
+        if (sh[h].a == a) return &sh[h];
+        if (sh[h].a == 0) return NULL;
         h = (h + 1) & (SH - 1);
     }
 }
@@ -143,7 +154,7 @@ void vomp_free(void *p) {
     /* the block may be recycled by another virtual thread: forget its access history */
     ahdr *h = (ahdr *)p - 1;
     uintptr_t a0 = (uintptr_t)p & ~(uintptr_t)7, a1 = ((uintptr_t)p + h->size + 7) & ~(uintptr_t)7;
-    for (uintptr_t a = a0; a < a1; a += 8) { shadow *s = sh_get(a); s->wt = -1; s->rmask = 0; }
+    if (in_region) for (uintptr_t a = a0; a < a1; a += 8) { shadow *s = sh_find(a); if (s) { s->wt = -1; s->rmask = 0; } }
     /* memory itself is released when the arena is reset at the start of the next execution */
 }
 void *vomp_calloc(size_t a, size_t b) { void *p = vomp_malloc(a * b); memset(p, 0, a * b); return p; }
